@@ -142,7 +142,10 @@ class Check:
                               timeout=timeout)
         if rc != 0:
             msg = (out + "\n" + err)
-            m = re.search(r'File "\./([^"]+)", line (\d+)', msg)
+            # the File line that is followed by Error (not a warning)
+            m = re.search(r'File "\./([^"]+)", line (\d+)[^\n]*\n(?:[^\n]*\n)?Error', msg)
+            if not m:
+                m = re.search(r'File "\./([^"]+)", line (\d+)', msg)
             name = f"{m.group(1)}:{m.group(2)}" if m else "make"
             self.broken("proof", name, msg)
             return False
